@@ -21,6 +21,13 @@ pub fn five_identity<S: Src>(s: &mut S) {
 }
 
 fn witness_checks<S: Src>(s: &mut S, g: &GhostV, v: u16, hand: &Five) {
+    // V is an arbitrary function here, so "every five-subset has value 0" is a possible ghost
+    // world; for distinct real cards it cannot happen (C01), and the property says nothing about
+    // it: no claim is made when the reported value is 0.
+    reach!(s, v != 0, "C03.witness.reach_real_value");
+    if v == 0 {
+        return;
+    }
     let a = hand.to_arr();
     // five distinct cards arranged in descending card order
     check!(s, a[0] > a[1] && a[1] > a[2] && a[2] > a[3] && a[3] > a[4], "C03.witness.strictly_descending");
